@@ -17,7 +17,7 @@ def run_script(name, args, files, timeout=120):
     d = tempfile.mkdtemp(prefix="vfcli")
     try:
         for fn, text in files.items():
-            with open(os.path.join(d, fn), "w", newline="", encoding="utf-8") as f:
+            with open(os.path.join(d, fn), "w", newline="", encoding="utf-8", errors="surrogateescape") as f:
                 f.write(text)
         env = dict(os.environ, PYTHONPATH=ROOT, PYTHONDONTWRITEBYTECODE="1", PYTHONHASHSEED="0", PYTHONIOENCODING="utf-8")
         r = subprocess.run([sys.executable, os.path.join(ROOT, "bin", name)] + list(args), cwd=d, env=env,
